@@ -118,6 +118,31 @@ def run(ctx) -> None:
     bad = [m.group(0) for m in re.finditer(r"queue_event\(\w+Event\(([^()]*(os\.fs(en|de)code|str|bytes)\([^)]*\))", qe)]
     ctx.check(not bad, RP, "PollingEmitter passes diff paths unchanged", f"diff paths are converted before being put into events: {bad}", pe.loc)
 
+    # ---- one emitter per path *type*: the watch key carries the path as given
+    RK = ctx.rule(
+        "C19/watch-identity-separates-path-types",
+        "ObservedWatch.key carries the stored path itself (no codec, no normalisation): the str and the bytes spelling of one directory are "
+        "different watches, each with its own emitter decoding for its own caller; and `path` returns the stored field unchanged",
+        floor=2,
+    )
+    from ..flow import origins
+
+    owc = P.cls("ObservedWatch")
+    kf, pf = owc.methods.get("key"), owc.methods.get("path")
+    if kf is None or pf is None:
+        raise AnalysisError("anchor vanished: ObservedWatch.key / ObservedWatch.path")
+    rets = [n.value for n in ast.walk(kf.node) if isinstance(n, ast.Return) and n.value is not None]
+    if not rets or not isinstance(rets[0], ast.Tuple) or not rets[0].elts:
+        raise AnalysisError("anchor vanished: ObservedWatch.key does not return a tuple")
+    comp = origins(kf.node, rets[0].elts[0])
+    okk = all(b in ("self.path", "self._path") and not w for b, w in comp)
+    ctx.check(okk, RK, "ObservedWatch.key path component", f"the key's path component is {sorted((b, list(w)) for b, w in comp)}: two spellings of one directory that differ only in type (str / bytes) become one watch, the second caller is served by the first caller's emitter and receives paths of the other type", kf.loc)
+    prets = [n.value for n in ast.walk(pf.node) if isinstance(n, ast.Return) and n.value is not None]
+    po = set()
+    for r in prets:
+        po |= origins(pf.node, r)
+    ctx.check(bool(prets) and all(b == "self._path" and not w for b, w in po), RK, "ObservedWatch.path returns the stored path", f"`path` returns {sorted((b, list(w)) for b, w in po)}", pf.loc)
+
     # ---- raw codecs
     from ..fixtures import FX_CODEC, must_fire, raw_codec_calls
 
@@ -136,6 +161,8 @@ def run(ctx) -> None:
 IN = "observers/inotify.py"
 API = "observers/api.py"
 VARIANTS = [
+    dict(name="B watch key decodes the path", expect="fire", rule="C19/watch-identity-separates-path-types", edits=[(API, "        return self.path, self.is_recursive, self.event_filter", "        return os.fsdecode(self.path), self.is_recursive, self.event_filter"), (API, "import queue\n", "import os\nimport queue\n")]),
+    dict(name="E key reads the backing field", expect="silent", edits=[(API, "        return self.path, self.is_recursive, self.event_filter", "        return self._path, self.is_recursive, self.event_filter")]),
     dict(name="B raw event.src_path passed to a constructor", expect="fire", rule="C19/decode-discipline", edits=[(IN, "                cls = DirModifiedEvent if event.is_directory else FileModifiedEvent\n                self.queue_event(cls(src_path))", "                cls = DirModifiedEvent if event.is_directory else FileModifiedEvent\n                self.queue_event(cls(event.src_path))")]),
     dict(name="B unconditional fsdecode", expect="fire", rule="C19/decode-conditional", edits=[(IN, "        return path if isinstance(self.watch.path, bytes) else os.fsdecode(path)", "        return os.fsdecode(path)")]),
     dict(name="B str() for every path type", expect="fire", rule="C19/path-normalisation", edits=[(API, "        self._path = str(path) if isinstance(path, Path) else path", "        self._path = str(path)")]),
